@@ -16,6 +16,11 @@ InvPkgIncl == \A n \in Lo..Hi : InclFits(n) =>
   /\ d.ok /\ d.k = Len(b) /\ d.v = n + Len(b)
   /\ \A j \in 1..(Len(b) - 1) : n + j > PkgMax(j)
   /\ (Len(b) > 1 => (b[1] \div 16) % 4 = 0 /\ b[1] \div 64 = Len(b) - 1)
+\* the integer-only transcription used for the symbolic (Apalache) proof agrees with PkgIncl
+ApaK(m) == IF m + 1 <= 63 THEN 1 ELSE IF m + 2 <= 4095 THEN 2 ELSE IF m + 3 <= 1048575 THEN 3 ELSE 4
+ApaBytes(m) == LET k == ApaK(m) v == m + k IN
+  SubSeq(<<IF k = 1 THEN v ELSE (k - 1) * 64 + (v % 16), (v \div 16) % 256, (v \div 4096) % 256, (v \div 1048576) % 256>>, 1, k)
+InvApaAgrees == \A n \in Lo..Hi : InclFits(n) => PkgIncl(n) = ApaBytes(n)
 \* PkgLength, exclusive: every width that can carry n decodes to n
 InvPkgExcl == \A n \in Lo..Hi : ExclFits(n) => \A k \in MinK(n)..4 : LET d == PkgDec(PkgBytes(n, k), 0) IN d.ok /\ d.v = n /\ d.k = k
 \* integers (values < 2^31 here; the byte-string forms beyond are covered by InvIntWide)
